@@ -27,6 +27,8 @@ type contentPeer struct {
 	fallback func(pid string, key []byte) []byte
 	// dialDelay: how long this peer waits after an ACCEPT before it opens the announced stream
 	dialDelay time.Duration
+	// serveDelay: how long this peer waits before it writes a looked-up item onto the announced stream
+	serveDelay time.Duration
 	// acceptGossip: accept what the node under test offers and keep what it then sends, so that the
 	// engine can judge what the node passes on to its neighbours
 	acceptGossip bool
@@ -123,6 +125,9 @@ func (cp *contentPeer) serve(from *enode.Node, addr *net.UDPAddr, c []byte, peer
 		if ver == 1 {
 			payload = append(leb128(uint32(len(c))), c...)
 		}
+		if cp.serveDelay > 0 {
+			time.Sleep(cp.serveDelay)
+		}
 		wctx, wcancel := context.WithTimeout(context.Background(), 100*time.Second)
 		defer wcancel()
 		st.Write(wctx, payload)
@@ -184,6 +189,14 @@ func genC02(r *prng) *plan {
 				}
 			}
 			p.Ops = append(p.Ops, opSpec{K: "offer", N: []int64{who, blk, item, mut, lie, int64(r.u64() >> 1)}})
+			if r.chance(12) {
+				// one offer naming the same key twice: the genuine item first, a forged one second
+				p.Ops = append(p.Ops, opSpec{K: "dupoffer", N: []int64{int64(r.intn(23)), int64(r.intn(4)), int64(r.u64() >> 1)}})
+			}
+			if r.chance(12) {
+				// a getter whose lookup is answered late by a lying peer while the genuine item arrives by offer
+				p.Ops = append(p.Ops, opSpec{K: "race", N: []int64{int64(1 + r.intn(2)), int64(r.intn(23)), int64(500 + r.intn(4000)), int64(r.u64() >> 1)}})
+			}
 		} else {
 			p.Ops = append(p.Ops, opSpec{K: "get", N: []int64{int64(r.intn(4)), int64(r.intn(23)), int64(r.intn(21)), int64(r.intn(3)), int64(r.u64() >> 1)}})
 		}
@@ -334,6 +347,39 @@ func runC02(seed uint64) {
 		return c
 	}
 	_ = craftedFor
+	// checkGot: whatever a block getter returns must be bound to the block asked for
+	checkGot := func(blk *hblock, gotHdr *types.Header, gotBody *types.Body, gotRcpt []*types.Receipt, err error) {
+		ref := blk.header
+		switch {
+		case gotHdr != nil:
+			if gotHdr.Hash() != blk.hash {
+				w.violate("C02", "getter-unbound", "GetBlockHeader(%x) returned a header with hash %x", blk.hash[:6], gotHdr.Hash().Bytes()[:6])
+			} else if !blk.genuine {
+				w.violate("C02", "getter-unbound", "GetBlockHeader returned a header that is not on the canonical chain (no proof against the accumulators can exist)")
+			}
+			w.probe("getter_returned")
+		case gotBody != nil:
+			why := ""
+			if h := types.DeriveSha(types.Transactions(gotBody.Transactions), trie.NewStackTrie(nil)); h != ref.TxHash {
+				why = "transactions root differs from the header's"
+			} else if types.CalcUncleHash(gotBody.Uncles) != ref.UncleHash {
+				why = "uncles hash differs from the header's"
+			} else if ref.WithdrawalsHash != nil && types.DeriveSha(types.Withdrawals(gotBody.Withdrawals), trie.NewStackTrie(nil)) != *ref.WithdrawalsHash {
+				why = "withdrawals root differs from the header's"
+			} else if ref.WithdrawalsHash == nil && len(gotBody.Withdrawals) > 0 {
+				why = "body carries withdrawals the header does not commit to"
+			}
+			if why != "" {
+				w.violate("C02", "getter-unbound", "GetBlockBody(%s) returned a body whose %s", blk.name, why)
+			}
+			w.probe("getter_returned")
+		case gotRcpt != nil && err == nil:
+			if h := types.DeriveSha(types.Receipts(gotRcpt), trie.NewStackTrie(nil)); h != ref.ReceiptHash {
+				w.violate("C02", "getter-unbound", "GetReceipts(%s) returned receipts whose root differs from the header's", blk.name)
+			}
+			w.probe("getter_returned")
+		}
+	}
 	nOps := 0
 	for opi, op := range p.Ops {
 		rs := newPrng(uint64(op.N[len(op.N)-1]) + 3)
@@ -521,43 +567,92 @@ func runC02(seed uint64) {
 			if !okc {
 				w.violate("C02", "call-hung", "%s did not return", name)
 			}
-			ref := blk.header
-			switch {
-			case gotHdr != nil:
-				if gotHdr.Hash() != blk.hash {
-					w.violate("C02", "getter-unbound", "GetBlockHeader(%x) returned a header with hash %x", blk.hash[:6], gotHdr.Hash().Bytes()[:6])
-				} else if !blk.genuine {
-					w.violate("C02", "getter-unbound", "GetBlockHeader returned a header that is not on the canonical chain (no proof against the accumulators can exist)")
-				}
-				w.probe("getter_returned")
-			case gotBody != nil:
-				why := ""
-				if h := types.DeriveSha(types.Transactions(gotBody.Transactions), trie.NewStackTrie(nil)); h != ref.TxHash {
-					why = "transactions root differs from the header's"
-				} else if types.CalcUncleHash(gotBody.Uncles) != ref.UncleHash {
-					why = "uncles hash differs from the header's"
-				} else if ref.WithdrawalsHash != nil && types.DeriveSha(types.Withdrawals(gotBody.Withdrawals), trie.NewStackTrie(nil)) != *ref.WithdrawalsHash {
-					why = "withdrawals root differs from the header's"
-				} else if ref.WithdrawalsHash == nil && len(gotBody.Withdrawals) > 0 {
-					why = "body carries withdrawals the header does not commit to"
-				}
-				if why != "" {
-					w.violate("C02", "getter-unbound", "GetBlockBody(%s) returned a body whose %s", blk.name, why)
-				}
-				w.probe("getter_returned")
-			case gotRcpt != nil && err == nil:
-				if h := types.DeriveSha(types.Receipts(gotRcpt), trie.NewStackTrie(nil)); h != ref.ReceiptHash {
-					w.violate("C02", "getter-unbound", "GetReceipts(%s) returned receipts whose root differs from the header's", blk.name)
-				}
-				w.probe("getter_returned")
-			}
+			checkGot(blk, gotHdr, gotBody, gotRcpt, err)
 			_ = gotRaw // portal_historyGetContent returns looked-up content as is (by design of the API)
+			nOps++
+		case "dupoffer":
+			blk := blocks[int(op.n(0))%len(blocks)]
+			if synthOf(blk) != nil {
+				continue
+			}
+			key, val := itemOf(blk, op.n(1))
+			if len(val) == 0 {
+				continue
+			}
+			forged := append([]byte{}, val...)
+			forged[rs.intn(len(forged))] ^= byte(1 << uint(rs.intn(8)))
+			H.content[hpid] = hAll
+			B.fallback = nil
+			var acc int
+			okc, err := w.call("offer", 200*time.Second, func() error {
+				var e error
+				acc, e = B.offerTo(V.self(), portalwire.History, vv, [][]byte{key, key}, [][]byte{val, forged})
+				return e
+			})
+			w.runFor(12 * time.Second)
+			w.op("dupoffer#%d by B: item%d of %s twice in one offer, genuine then forged (%d bytes) -> accepted=%d ok=%v err=%v; oracle for the forged one: %s", opi, op.n(1)%4, blk.name, len(val), acc, okc, err != nil, orBound(bind.judge(key, forged)))
+			w.abstract("dupoffer i%d acc%d", op.n(1)%4, acc)
+			w.probe("dup_key_offers")
+			nOps++
+		case "race":
+			blk := blocks[int(op.n(1))%len(blocks)]
+			if synthOf(blk) != nil || !blk.genuine {
+				continue
+			}
+			getter := op.n(0) // 1 body, 2 receipts
+			key, val := itemOf(blk, []int64{0, 2, 3}[getter])
+			if len(val) < 1200 {
+				continue // only items that travel over a stream can be answered late
+			}
+			forged := append([]byte{}, val...)
+			forged[rs.intn(len(forged))] ^= byte(1 << uint(rs.intn(8)))
+			if nv, _ := fieldMutate(rs, []int64{0, 2, 3}[getter], val, 14+rs.intn(4)); nv != nil && rs.chance(50) {
+				forged = nv
+			}
+			// the honest peer serves headers but not this item: the lookup is B's to answer, late
+			hNo := map[string][]byte{}
+			for k, v := range hAll {
+				if k != string(key) {
+					hNo[k] = v
+				}
+			}
+			H.content[hpid] = hNo
+			B.fallback = nil
+			B.content[hpid] = map[string][]byte{string(key): forged}
+			B.serveDelay = time.Duration(op.n(2)) * time.Millisecond
+			var gotBody *types.Body
+			var gotRcpt []*types.Receipt
+			var gerr error
+			tg := w.spawn("race-get", func() error {
+				if getter == 1 {
+					gotBody, gerr = V.histNet.GetBlockBody(blk.hash[:])
+				} else {
+					gotRcpt, gerr = V.histNet.GetReceipts(blk.hash[:])
+				}
+				return nil
+			})
+			w.runFor(20 * time.Millisecond)
+			to := w.spawn("race-offer", func() error {
+				_, e := H.offerTo(V.self(), portalwire.History, vv, [][]byte{key}, [][]byte{val})
+				return e
+			})
+			w.runUntil(func() bool { return tg.done && to.done }, 250*time.Second)
+			B.serveDelay = 0
+			w.runFor(5 * time.Second)
+			w.op("race#%d %s of %s: lookup answered %d ms late by a lying peer while the genuine item is offered -> getter err=%v", opi, []string{"", "GetBlockBody", "GetReceipts"}[getter], blk.name, op.n(2), gerr != nil)
+			w.abstract("race g%d err=%v", getter, gerr != nil)
+			w.probe("getter_races_offer")
+			if !tg.done {
+				w.violate("C02", "call-hung", "getter racing an offer did not return")
+			}
+			checkGot(blk, nil, gotBody, gotRcpt, gerr)
 			nOps++
 		}
 		if len(V.panics) > 0 {
 			break
 		}
 	}
+	_ = checkGot
 	w.runUntil(func() bool { return w.inflightTasks == 0 }, 200*time.Second)
 	w.runFor(15 * time.Second)
 	for _, pr := range V.panics {
